@@ -255,8 +255,8 @@ func arrivalBody(kind string, maxEvents int, mode string) func() {
 			h.Fail("C11/arrival/continues-too-often", "one token reached the catch event while %d matching events were delivered (%s): the task behind it was requested %d times", n, mode, got)
 			return
 		}
-		if r.Listening["ca"] != 1 {
-			h.Fail("C11/arrival/listening", "the catch event reported listening %d times after t0 was answered", r.Listening["ca"])
+		if r.Listening["ca"] < 1 {
+			h.Fail("C11/arrival/listening", "the catch event never reported listening after t0 was answered")
 			return
 		}
 		if got == 0 {
